@@ -218,6 +218,7 @@ ASPECTS = [f'name:{k}' for k in KINDS] + ['set-identifier', 'header-id', 'ident:
                                           'ident:label', 'ident:type', 'signed-int', 'channel-in-no-frame',
                                           'channel-in-two-frames', 'non-uniform-index', 'non-uniform-index+spacing',
                                           'non-uniform-index+direction', 'non-uniform-index+index-min-max',
+                                          'non-uniform-index-decreasing', 'non-uniform-index-up-and-down',
                                           'unit:channel', 'unit:attr',
                                           'index-type', 'eq-type', 'eq-location', 'none', 'none-no-fsn']
 # other shapes of a non-conforming identifier (one trailing line feed is what `$` in a regular expression lets through)
@@ -321,6 +322,10 @@ def breach_spec(aspect):
         ops.append(S.op_add('frame', 'F1', 'SECOND-FRAME', channels=[{'$ref': 'C1'}]))
     elif aspect.startswith('non-uniform-index'):
         ops[2]['kw']['data'] = S.arr_spec('float64', [3], [0x3FF0000000000000, 0x4000000000000000, 0x4024000000000000])
+        if aspect.endswith('-decreasing'):
+            ops[2]['kw']['data'] = S.arr_spec('float64', [3], [0x4024000000000000, 0x4000000000000000, 0x3FF0000000000000])
+        elif aspect.endswith('-up-and-down'):
+            ops[2]['kw']['data'] = S.arr_spec('float64', [3], [0x4000000000000000, 0x4024000000000000, 0x3FF0000000000000])
         if aspect.endswith('+spacing'):
             ops[4]['kw']['spacing'] = 1.0
         elif aspect.endswith('+direction'):
